@@ -323,3 +323,68 @@ Example C18_world_concrete :
   /\ sh_trace sh_example (sh_init sh_example 2) [(0,RdNext 1); (1,RdNext 1); (0,RdNext 1)]
        = [[([0;1],[0;1;2;3])]; [([0],[4;5;100;101])]; [([2],[102;6;7;8])]].
 Proof. vm_compute. repeat split; reflexivity. Qed.
+
+
+(* ---------------- loads that fail ---------------- *)
+(* A pass in which loads fail is a partial function of the source (f_pass: `fails a` = the a-th load attempted in the pass
+   raises; b = 0: the exception propagates, which is the code; b > 0: the same request is made again, from the same state).
+   For ANY reader machine: what such a pass delivered is a prefix of what the healthy pass delivers, and a pass that ended
+   delivered all of it ... *)
+Theorem C18_fault_pass_vs_healthy : forall (St Rq : Type) (next : St -> option (St * Rq)) fails fuel b st a m stm outm,
+  rd_nexts next m st = (stm, outm) -> next stm = None ->
+  (exists rest, outm = f_out (f_pass next fails fuel b st a) ++ rest)
+  /\ (forall o, f_pass next fails fuel b st a = FDone o -> o = outm).
+Proof. exact @f_pass_vs_healthy. Qed.
+Print Assumptions C18_fault_pass_vs_healthy.
+
+(* ... hence for the readers of the library (data frame / HDF5 / FITS / random generator / Parquet with its row-group cache),
+   whichever loads fail and under both policies: a pass that ended delivered every record of the source exactly once, in
+   order, in the chunks of the healthy pass (1..cs records each); a pass that raised delivered a prefix of them *)
+Theorem C18_fault_pass_exactly_once : forall c fails fuel b, 1 <= u_cs c ->
+  let r := f_pass (u_next c) fails fuel b (u_init c) 0 in
+  (forall out, r = FDone out ->
+     map snd out = chunks (u_cs c) (u_rows c) /\ concat (map snd out) = u_rows c
+     /\ Forall (fun ch => 1 <= length ch <= u_cs c) (map snd out))
+  /\ (exists rest, chunks (u_cs c) (u_rows c) = map snd (f_out r) ++ rest).
+Proof. exact fault_pass_exactly_once. Qed.
+Print Assumptions C18_fault_pass_exactly_once.
+
+(* `the same request again` is not vacuous: one failing load and one retry never raise *)
+Theorem C18_fault_retry_once_completes : forall c j fuel out,
+  f_pass (u_next c) (fun i => i =? j) fuel 1 (u_init c) 0 <> FRaised out.
+Proof. exact fault_retry_once_completes. Qed.
+Print Assumptions C18_fault_retry_once_completes.
+
+(* the variant `answer a failed load by halving the chunk size and rewinding the position - already advanced by the old chunk
+   size - by the NEW one`: whichever chunk fails to load (once), the pass does not raise and never requests the first record
+   of that chunk *)
+Theorem C18_fault_halve_rewind_refuted : forall n cs j fuel, 2 <= cs -> j * cs < n ->
+  let r := f_pass_halve (fun i => i =? j) fuel n cs 0 0 in
+  f_raised r = false /\ In (j * cs) (seq 0 n) /\ ~ In (j * cs) (concat (map range (f_out r))).
+Proof. exact halve_rewind_refuted. Qed.
+Print Assumptions C18_fault_halve_rewind_refuted.
+
+Example C18_fault_concrete :
+  let c := COff true 10 4 in
+  let once1 := fun i => i =? 1 in
+  (* 10 records in chunks of 4, the load of the second chunk fails once: propagate / the same request again / the variant *)
+  f_pass (u_next c) once1 20 0 (u_init c) 0 = FRaised [([], [0;1;2;3])]
+  /\ f_pass (u_next c) once1 20 1 (u_init c) 0 = FDone [([], [0;1;2;3]); ([], [4;5;6;7]); ([], [8;9])]
+  /\ f_pass_halve once1 20 10 4 0 0 = FDone [(0,4); (6,8); (8,10)]
+  (* from then on: also the retry fails, the exception propagates *)
+  /\ f_pass (u_next c) (fun i => 1 <=? i) 20 1 (u_init c) 0 = FRaised [([], [0;1;2;3])]
+  (* Parquet, row groups of 3,3,3,1 and chunks of 4: the third next() (it loads the last row group) fails *)
+  /\ f_pass (u_next (CPq 4 (rows_of_sizes [3;3;3;1]))) (fun i => i =? 2) 20 0 (u_init (CPq 4 (rows_of_sizes [3;3;3;1]))) 0
+     = FRaised [([0;1], [0;1;2;3]); ([2], [4;5;6;7])]
+  (* the checker on observations: the two acceptable outcomes, the variant, a swallowed failure (Parquet, load of row
+     group 2 taken for the end of the file: a short chunk, the last records never delivered), a skipped chunk *)
+  /\ c18_fault_case c [1] true (Some [[0;1;2;3]]) [((0,4),false); ((4,8),true)] = 0
+  /\ c18_fault_case c [1] false (Some [[0;1;2;3]; [4;5;6;7]; [8;9]]) [((0,4),false); ((4,8),true); ((4,8),false); ((8,10),false)] = 0
+  /\ c18_fault_case c [1] false (Some [[0;1;2;3]; [6;7]; [8;9]]) [((0,4),false); ((4,8),true); ((6,8),false); ((8,10),false)] = 7
+  /\ c18_fault_case (CPq 4 (rows_of_sizes [3;3;3;3;3;3;2])) [1] false
+       (Some [[0;1;2;3]; [4;5]; [6;7;8;9]; [10;11;12;13]; [14;15;16;17]])
+       [((0,1),false); ((1,2),false); ((2,3),true); ((2,3),false); ((3,4),false); ((4,5),false); ((5,6),false)] = 7
+  /\ c18_fault_case c [1] false (Some [[0;1;2;3]; [8;9]]) [((0,4),false); ((4,8),true); ((8,10),false)] = 7
+  /\ c18_fault_case c [] false None [((0,4),false); ((4,8),false); ((8,10),false)] = 0
+  /\ c18_fault_case (COff false 10 4) [0] false (Some [[0;0]; [0;0;0;0]; [0;0;0;0]]) [((0,4),true); ((0,2),false); ((0,4),false); ((0,4),false)] = 7.
+Proof. vm_compute. repeat split; reflexivity. Qed.
